@@ -4,6 +4,7 @@ package child
 
 import (
 	"bytes"
+	"errors"
 	"fmt"
 	"io"
 	"net"
@@ -215,4 +216,21 @@ func (c *Child) Stop() {
 	}
 }
 
-func (c *Child) Dial() (net.Conn, error) { return net.DialTimeout("unix", c.Sock, 5*time.Second) }
+// Dial connects to the child's socket. A timeout is retried while the process
+// is alive (for up to a minute): a local connect only times out when this
+// process or the machine stalled, and callers read a failed dial as "the
+// server accepts no more connections".
+func (c *Child) Dial() (net.Conn, error) {
+	start := time.Now()
+	for {
+		cn, err := net.DialTimeout("unix", c.Sock, 10*time.Second)
+		if err == nil {
+			return cn, nil
+		}
+		var ne net.Error
+		if errors.As(err, &ne) && ne.Timeout() && c.Alive() && time.Since(start) < time.Minute {
+			continue
+		}
+		return nil, err
+	}
+}
